@@ -384,6 +384,37 @@ class FieldGen:
 
     def __init__(self, rng):
         self.rng = rng
+        self.aux = []          # type declarations the generated fields refer to (collected into the scenario by rand_struct's callers)
+        self.ntypes = 0
+
+    # ---- dimension mixing: the same rule written / typed in another documented way (each at low probability, so that
+    # most structs stay plain while every run still contains several of each variation)
+    def intlit(self, n):
+        """a non-negative integer in one of Go's literal forms (values by go/constant on the model side)"""
+        r = self.rng.random()
+        if n < 0 or r > 0.2:
+            return str(n)
+        return self.rng.choice(["0%o" % n if n else "00", "0x%X" % n, "0b%s" % bin(n)[2:], "0o%o" % n, "%d_0" % (n // 10) if n >= 10 and n % 10 == 0 else str(n)])
+
+    def spell(self, doc):
+        """some marker lines in the legacy spelling"""
+        return [("// +govalid:" + d[len("//govalid:"):]) if d.startswith("//govalid:") and self.rng.random() < 0.08 else d for d in doc]
+
+    def retype(self, t, kind):
+        """the field's type replaced by a named type / an alias over it (a named type behaves like its underlying type)"""
+        r = self.rng.random()
+        if r > 0.18:
+            return t
+        NT_COUNTER[0] += 1
+        nm = "NT%d" % NT_COUNTER[0]
+        if kind == "string" or r < 0.06:
+            a, nt = alias(nm, t)
+        else:
+            a, nt = named(nm, t)
+            if self.rng.random() < 0.5:
+                a += "\nfunc (x %s) IsZero() bool { return false }\nfunc (x %s) String() string { return \"\" }" % (nm, nm)
+        self.aux.append(a)
+        return nt
 
     def numeric(self, name):
         rng = self.rng
@@ -396,7 +427,7 @@ class FieldGen:
             if t["vk"] == "int":
                 lo, hi = int_range(t)
                 b = rng.choice([0, 1, 3, 10, 100, max(lo, -5), min(hi, 120)])
-                doc.append("//govalid:%s=%d" % (op, b))
+                doc.append("//govalid:%s=%s" % (op, self.intlit(b)))
                 bounds.append(b)
             else:
                 b = rng.choice([0.0, 0.5, -2.5, 10.0, 100.0])
@@ -414,7 +445,7 @@ class FieldGen:
             vals = [lambda p, z=z: set_f32(p, z) for z in float_lattice("float32", [float(b) for b in bounds])]
         else:
             vals = [lambda p, z=z: set_f64(p, z) for z in float_lattice("float64", [float(b) for b in bounds])]
-        return fld(name, doc, t), vals
+        return fld(name, self.spell(doc), self.retype(t, "numeric")), vals
 
     def string(self, name):
         rng = self.rng
@@ -422,7 +453,7 @@ class FieldGen:
         cand = [b"", b"a", b"ab", "é€".encode(), b"\xff\xfe", b"abcdefghijkl"]
         for m in rng.sample(["minlength", "maxlength", "length"], rng.randint(0, 2)):
             n = rng.choice([0, 1, 2, 3, 5, 8])
-            doc.append("//govalid:%s=%d" % (m, n))
+            doc.append("//govalid:%s=%s" % (m, self.intlit(n)))
             cand += [b"a" * max(0, n - 1), b"a" * n, b"a" * (n + 1), "é".encode() * n]
         if rng.random() < 0.5:
             fm = rng.choice(list(FORMAT_MEMBERS))
@@ -435,7 +466,7 @@ class FieldGen:
             doc.append("//govalid:required")
         if not doc:
             doc.append("//govalid:required")
-        return fld(name, doc, basic("string")), [lambda p, z=z: set_str(p, z) for z in cand]
+        return fld(name, self.spell(doc), self.retype(basic("string"), "string")), [lambda p, z=z: set_str(p, z) for z in cand]
 
     def coll(self, name):
         rng = self.rng
@@ -444,12 +475,12 @@ class FieldGen:
         ns = []
         for m in rng.sample(["minitems", "maxitems"], rng.randint(1, 2)):
             n = rng.choice([0, 1, 2, 4])
-            doc.append("//govalid:%s=%d" % (m, n))
+            doc.append("//govalid:%s=%s" % (m, self.intlit(n)))
             ns.append(n)
         if rng.random() < 0.4:
             doc.append("//govalid:required")
         vals = [lambda p: set_coll(p, True, 0)] + [lambda p, k=k: set_coll(p, False, k) for k in sorted({0, 1, 2, 3, 5} | set(ns))]
-        return fld(name, doc, t), vals
+        return fld(name, self.spell(doc), self.retype(t, "coll")), vals
 
     def nilable(self, name):
         t = self.rng.choice([POINTER, IFACE, ANY, ERROR, FUNC])
@@ -467,6 +498,10 @@ class FieldGen:
         return getattr(self, k)(name)
 
 
+NT_COUNTER = [0]   # names of generated types: unique within a run, deterministic for a seed
+AUX_SINK = []      # type declarations produced by the last rand_struct calls; drained into the scenario by scenario()
+
+
 def rand_struct(rng, name, nfields, depth, prefix="", counter=None):
     """Returns (fields, [(path, value makers)])"""
     fg = FieldGen(rng)
@@ -476,6 +511,9 @@ def rand_struct(rng, name, nfields, depth, prefix="", counter=None):
     for _ in range(nfields):
         counter[0] += 1
         fname = "F%d" % counter[0]
+        if rng.random() < 0.1:
+            fname = rng.choice(["X_%d", "Ñ%d", "f%d", "Min%dMax", "Err%d", "T%d_", "ctx%d"]) % counter[0]
+        fg_aux_before = len(fg.aux)
         if depth > 0 and rng.random() < 0.25:
             sub, sublat = rand_struct(rng, name, rng.randint(1, 3), depth - 1, prefix + fname + ".", counter)
             fields.append(fld(fname, [], nested=sub))
@@ -492,6 +530,7 @@ def rand_struct(rng, name, nfields, depth, prefix="", counter=None):
             fields.append(f)
             if vals:
                 lattices.append((prefix + fname, vals))
+    AUX_SINK.extend(fg.aux)
     return fields, lattices
 
 
